@@ -350,7 +350,7 @@ def maf_reused_cases(ctx, out):
         contigs = rng.choice([None, ["1", "2", "10", "X"], ["10", "X", "2", "1"]])
         config = rng.choice(["scheme", "inferred"])
         n = rng.choice([2, 3, 4, 6])
-        specs = [(rng.choice(["T1", "T2"]), rng.choice(["N1", "N2", None]), rng.choice(["1", "2", "10", "X"]),
+        specs = [(rng.choice(SC.TUMORS if rng.random() < 0.3 else ["T1", "T2"]), rng.choice(["N1", "N2", None]), rng.choice(["1", "2", "10", "X"]),
                   rng.choice([5, 9, 10, 100, 1000]), 0) for _ in range(n)]
         specs = [(t, nn, c, s_, s_ + rng.choice([0, 1, 10])) for (t, nn, c, s_, _d) in specs]
         cap = rng.choice([1, 2, 3, n + 1])
@@ -403,7 +403,7 @@ def maf_sequence_cases(ctx, out):
         runs = []
         for _r in range(rng.choice([2, 3])):
             n = rng.choice([1, 2, 3, 4])
-            specs = [[rng.choice(["T1", "T2"]), rng.choice(["N1", "N2"]), rng.choice(["1", "2", "10", "X"]), rng.choice([5, 9, 10, 100]), 0] for _i in range(n)]
+            specs = [[rng.choice(SC.TUMORS if rng.random() < 0.3 else ["T1", "T2"]), rng.choice(["N1", "N2"]), rng.choice(["1", "2", "10", "X"]), rng.choice([5, 9, 10, 100]), 0] for _i in range(n)]
             specs = [[t, nn, c, s_, s_ + rng.choice([0, 1])] for (t, nn, c, s_, _e) in specs]
             runs.append([rng.randrange(len(LAYOUTS)), rng.choice([1, 2, n + 1]), specs])
         out.evaluations += 1
@@ -417,7 +417,7 @@ def maf_after_edits_cases(ctx, out):
     for _ in range(ctx.scale(4, 30)):
         order = rng.choice(["Coordinate", "BarcodesAndCoordinate"])
         n = rng.choice([1, 3, 4])
-        specs = [(rng.choice(["T1", "T2"]), rng.choice(["N1", None]), rng.choice(["1", "2", "X"]), rng.choice([5, 9, 100]), 0) for _k in range(n)]
+        specs = [(rng.choice(SC.TUMORS if rng.random() < 0.3 else ["T1", "T2"]), rng.choice(["N1", None]), rng.choice(["1", "2", "X"]), rng.choice([5, 9, 100]), 0) for _k in range(n)]
         specs = [(t, nn, c, s, s + d) for (t, nn, c, s, d) in specs]
         out.evaluations += 1
         where, texts, fails, keyseq = eval_maf_after_edits(order, None, rng.choice([1, 2, n + 1]), specs, None)
@@ -435,7 +435,7 @@ def maf_cases(ctx, out):
         n = rng.choice([0, 1, 3, 4, 5, 7])
         # (positions of any size: beyond 2**53 neighbouring integers are one and the same double)
         starts = [5, 9, 10, 100, 1000] if rng.random() < 0.8 else [2 ** 53, 2 ** 53 + 1, 2 ** 53 + 2, 2 ** 63, 2 ** 63 + 1, 7]
-        specs = [(rng.choice(["T1", "T2"]), rng.choice(["N1", "N2", None]), rng.choice(["1", "2", "10", "X"]),
+        specs = [(rng.choice(SC.TUMORS if rng.random() < 0.3 else ["T1", "T2"]), rng.choice(["N1", "N2", None]), rng.choice(["1", "2", "10", "X"]),
                   rng.choice(starts), rng.choice([0, 1, 10])) for _ in range(n)]
         refused = rng.choice([None, None, "layout", "contig" if contigs else "layout"]) if config in ("inferred", "names") else None
         canon = None
@@ -722,7 +722,7 @@ def maf_route_cases(ctx, out, tmp):
         config = rng.choice(["scheme", "names", "names", "inferred"])
         route = rng.choice(routes_of_config(config, contigs))
         n = rng.choice([2, 3, 4, 5, 6])
-        specs = [(rng.choice(["T1", "T2"]), rng.choice(["N1", "N2", None]), rng.choice(["1", "2", "10", "X"]),
+        specs = [(rng.choice(SC.TUMORS if rng.random() < 0.3 else ["T1", "T2"]), rng.choice(["N1", "N2", None]), rng.choice(["1", "2", "10", "X"]),
                   rng.choice([5, 9, 10, 100, 1000]), rng.choice([0, 1, 10])) for _ in range(n)]
         canon = None
         for cap in sorted({1, rng.choice([2, 3]), n + 1}):
